@@ -58,6 +58,7 @@ fn c19(stride: u32) -> (u64, bool) {
     let gens = ctv::props::c19::gens();
     let repeat = gens.iter().find(|g| g.name == "c19_repeat").unwrap();
     let mix = gens.iter().find(|g| g.name == "c19_mix").unwrap();
+    let layout = gens.iter().find(|g| g.name == "c19_layout").unwrap();
     let mut n = 0u64;
     let mut ok = true;
     for entry in 0..3usize {
@@ -68,6 +69,19 @@ fn c19(stride: u32) -> (u64, bool) {
                 n += 1;
             }
             b += stride.max(1) * 5 + 1;
+        }
+        // layout-aware inputs (clamping boundaries, cut characters, short fixed-size members)
+        if entry < 2 {
+            for kind in 0..4usize {
+                for i in 0..(16 / stride.max(1)).max(2) {
+                    let w: Vec<u32> = vec![idx(entry, 2), idx(kind, 4)]
+                        .into_iter()
+                        .chain((0..120u32).map(|j| i.wrapping_mul(0x9E37_79B9).wrapping_add(777).wrapping_add(j.wrapping_mul(0x85EB_CA6B)).rotate_left(j % 29)))
+                        .collect();
+                    ok &= run_case(layout, &w);
+                    n += 1;
+                }
+            }
         }
         // deterministic mixes of well- and ill-formed UTF-8
         for i in 0..(24 / stride.max(1)).max(2) {
